@@ -300,6 +300,9 @@ def check(pid, tier, seed):
                 known_hits[k['id']] = (k, cs[0])
     for kid, (k, c) in known_hits.items():
         known_lines.append(f"KNOWN-FINDING: property={pid} {k['what']} [{kid}] case: {c.req[:200]}")
+    for k in known:
+        if k['id'] not in known_hits:
+            known_lines.append(f"KNOWN-FINDING: property={pid} {k['what']} [{k['id']}] (not replayed in the {tier} tier)")
     searched = 0
     # 3. broken correspondence without an oracle failure: targeted search
     if disagreements and not fails:
